@@ -6,5 +6,7 @@ CONSTANTS
   Strategies = {"MASTER", "BOTH", "REPLICA"}
   Kinds = {"read", "write", "unsupported", "local"}
   MaxReq = 1
+  MaxUpdates = 0
+  StickyStrategy = FALSE
   SharedScratch = FALSE
 CHECK_DEADLOCK FALSE
